@@ -285,6 +285,8 @@ def victims(rng, lay, n=None):
         name = rng.choice(NAME_POOL) + ('%d' % k if rng.random() < 0.5 else '')
         parent = os.path.join(root, sub) if sub else root
         full = parent + '/' + name
+        if any(full == v['path'] or full.startswith(v['path'] + '/') or v['path'].startswith(full + '/') for v in vs):
+            continue
         kind = rng.choice(['f', 'f', 'e', 'd', 'lf', 'ld', 'lx'])
         nodes.append(['d', parent, 0o755])
         if kind == 'f':
